@@ -819,6 +819,29 @@ def inplace_sites(fn) -> list[tuple[ast.AST, str]]:
                 w = targets_state(n.args[0])
                 if w:
                     out.append((n, f"{call_name(n)} on {w}"))
+    # `x = state.var; x op= e; state.var = x` is what `state.var op= e` means (load, in-place operator, store through
+    # __setattr__): an in-place update through an alias that is assigned back in the same block, with no use of the state
+    # object in between, goes through __setattr__ after all
+    from ..model import _blocks
+
+    def assigned_back(node) -> bool:
+        for block in _blocks(fn.node):
+            for i, st in enumerate(block):
+                if st is not node:
+                    continue
+                t = node.target if isinstance(node, ast.AugAssign) else None
+                if not (isinstance(t, ast.Name) and t.id in aliases):
+                    return False
+                state_name, var = aliases[t.id].split(".")
+                for later in block[i + 1 :]:
+                    if isinstance(later, ast.Assign) and len(later.targets) == 1 and _root_state_var(later.targets[0]) == (state_name, var) and isinstance(later.value, ast.Name) and later.value.id == t.id:
+                        return True
+                    if any(isinstance(x, ast.Name) and x.id == state_name for x in ast.walk(later)):
+                        return False
+                return False
+        return False
+
+    out = [(n, w) for n, w in out if not assigned_back(n)]
     return out
 
 
